@@ -411,6 +411,19 @@ class SArr(_np.ndarray):
 
     __hash__ = None
 
+    def __invert__(s):
+        return v_not(s)
+
+    def __and__(s, o):
+        return v_and(s, o)
+
+    __rand__ = __and__
+
+    def __or__(s, o):
+        return v_or(s, o)
+
+    __ror__ = __or__
+
     def __array_ufunc__(self, ufunc, method, *inputs, out=None, **kwargs):
         if any(hasattr(i, "__sarr_priority__") for i in inputs):
             return NotImplemented
@@ -497,6 +510,8 @@ class SArr(_np.ndarray):
         return _np.ndarray.astype(self, dtype, *a, **k)
 
     def __getitem__(self, key):
+        if isinstance(key, tuple) and any(_is_symbolic_mask(k) for k in key):
+            key = tuple((_booleanize(_plain(k)) if _booleanize(_plain(k)) is not None else _fork_mask(_plain(k))) if _is_symbolic_mask(k) else k for k in key)
         if _is_symbolic_mask(key):
             b = _booleanize(_plain(key))
             if b is None:
@@ -506,6 +521,8 @@ class SArr(_np.ndarray):
         return r
 
     def __setitem__(self, key, value):
+        if isinstance(key, tuple) and any(_is_symbolic_mask(k) for k in key):
+            key = tuple((_booleanize(_plain(k)) if _booleanize(_plain(k)) is not None else _fork_mask(_plain(k))) if _is_symbolic_mask(k) else k for k in key)
         if _is_symbolic_mask(key):
             b = _booleanize(_plain(key))
             if b is None:
@@ -844,7 +861,7 @@ class NPShim:
         "newaxis ndarray pi inf nan e ndindex integer floating int32 int64 float64 float32 int_ "
         "bool_ intp uint8 errstate seterr ndim shape size arange unique bincount isscalar "
         "number generic dtype iinfo array_equiv index_exp s_ ix_ nonzero flatnonzero argsort sort "
-        "count_nonzero searchsorted linspace issubdtype result_type can_cast iterable broadcast broadcast_shapes"
+        "count_nonzero searchsorted linspace issubdtype result_type can_cast iterable broadcast broadcast_shapes lexsort"
     ).split()
 
     def __init__(self):
@@ -868,7 +885,10 @@ class NPShim:
 
     def __getattr__(self, n):
         if n in NPShim._pass:
-            return _wrap(getattr(_np, n))
+            f = getattr(_np, n)
+            if isinstance(f, _np.ufunc):
+                return _UfuncWrap(f)
+            return _wrap(f)
         if n in NPShim._const:
             return getattr(_np, n)
         raise Unsupported("numpy.%s is not modelled by the symbolic shim" % n)
@@ -1156,6 +1176,17 @@ class NPShim:
         a = _plain(_obj(a))
         return self.sqrt(_unbox(_np.sum(a * a, axis=axis)))
 
+    def logical_not(self, a, **kw):
+        return v_not(a)
+
+    invert = logical_not
+
+    def logical_and(self, a, b, **kw):
+        return v_and(a, b)
+
+    def logical_or(self, a, b, **kw):
+        return v_or(a, b)
+
     # predicates as formulas ------------------------------------------------------------
     def isclose(self, a, b, rtol=1e-5, atol=1e-8, equal_nan=False):
         a, b = _obj(a), _obj(b)
@@ -1198,6 +1229,37 @@ def _conj(r):
 
 NP = NPShim()
 
+def _logic(f):
+    def g(*args):
+        args = [_plain(_obj(a)) for a in args]
+        return _unbox(_np.frompyfunc(f, len(args), 1)(*args))
+
+    return g
+
+
+def _b(v):
+    return v if isinstance(v, SB) else (SB(z3.BoolVal(bool(v))) if not isinstance(v, (SV, SInt)) else SB(z3.Or(badz(v), _z(v) != 0)))
+
+
+v_not = _logic(lambda a: ~_b(a) if isinstance(a, (SB, SV, SInt)) else (not a))
+v_and = _logic(lambda a, b: (_b(a) & _b(b)) if isinstance(a, (SB, SV, SInt)) or isinstance(b, (SB, SV, SInt)) else (bool(a) and bool(b)))
+v_or = _logic(lambda a, b: (_b(a) | _b(b)) if isinstance(a, (SB, SV, SInt)) or isinstance(b, (SB, SV, SInt)) else (bool(a) or bool(b)))
+
+
+class _UfuncWrap:
+    """a pass-through NumPy ufunc that keeps its methods (reduce, reduceat, outer, accumulate, at)"""
+
+    def __init__(self, uf):
+        self._uf = uf
+        self.__name__ = uf.__name__
+
+    def __call__(self, *a, **k):
+        return _wrap(self._uf)(*a, **k)
+
+    def __getattr__(self, n):
+        return _wrap(getattr(self._uf, n))
+
+
 _UFUNC_TABLE = {
     _np.maximum: v_max,
     _np.minimum: v_min,
@@ -1211,6 +1273,12 @@ _UFUNC_TABLE = {
     _np.isfinite: v_isfinite,
     _np.isnan: v_isnan,
     _np.logaddexp: lambda a, b: NP.logaddexp(a, b),
+    _np.invert: v_not,
+    _np.logical_not: v_not,
+    _np.bitwise_and: v_and,
+    _np.logical_and: v_and,
+    _np.bitwise_or: v_or,
+    _np.logical_or: v_or,
 }
 
 
